@@ -81,3 +81,16 @@ int select(int nfds, void* rset, void* wset, void* eset, void* timeout)
 int setsockopt(int fd, int level, int opt, const void* v, unsigned len) { (void)fd; (void)level; (void)opt; (void)v; (void)len; return 0; }
 int getsockopt(int fd, int level, int opt, void* v, unsigned* len) { (void)fd; (void)level; (void)opt; (void)v; (void)len; return 0; }
 int fcntl(int fd, int cmd, ...) { (void)fd; (void)cmd; return 0; }
+/* peer/local address of a model socket: IPv4 127.0.0.1:80 (struct sockaddr_in: family 2, port, addr) */
+static int vaddr(int fd, void* addr, unsigned* len, int port)
+{
+	if (!S(fd)) return -1;
+	unsigned char* a = (unsigned char*)addr;
+	unsigned n = *len < 16 ? *len : 16;
+	for (unsigned i = 0; i < n; i++) a[i] = 0;
+	if (n >= 8) { a[0] = 2; a[1] = 0; a[2] = (unsigned char)(port >> 8); a[3] = (unsigned char)port; a[4] = 127; a[7] = 1; }
+	*len = 16;
+	return 0;
+}
+int getpeername(int fd, void* addr, unsigned* len) { if (!S(fd)) { PASS(52, fd, addr, len); } return vaddr(fd, addr, len, 40000); }
+int getsockname(int fd, void* addr, unsigned* len) { if (!S(fd)) { PASS(51, fd, addr, len); } return vaddr(fd, addr, len, 80); }
